@@ -30,7 +30,8 @@ VICTIM_DUR = 5000     # ms: far beyond any effective timeout used for victims (<
 def _t(name: str, **kw: T.Any) -> dict:
     d = {'name': name, 'parallel': True, 'priority': 0, 'dur': [0], 'rc': [0], 'should_fail': False,
          'xfail_kw': 'should_fail', 'timeout': None, 'protocol': 'exitcode', 'tap': None, 'term': 'default',
-         'suites': [], 'victim': False, 'leak': 0, 'leakterm': 'default'}
+         'suites': [], 'victim': False, 'leak': 0, 'leakterm': 'default', 'out': 0, 'err': 0, 'outnl': True,
+         'desc': 'plain'}
     d.update(kw)
     return d
 
@@ -267,6 +268,31 @@ def gen_project(rng: random.Random, profile: str, idx: int = 0) -> dict:
         for t, f in zip(cands, forced):
             t.update(should_fail=False)
             t.update(f)
+    # shape of what the test programs print - independent of how they end: bulk output with no newline inside
+    # (below / at / far above asyncio's 64 KiB stream limit; stdout only for exitcode tests, stderr for any), and
+    # TAP subtest descriptions containing characters that mean something elsewhere in TAP ('#')
+    _SIZES = [1000, 65535, 65536, 65537, 70000, 100000, 200000]
+    plain = [t for t in seq if not t['victim'] and not t['leak']]
+    for t in plain:
+        if t['protocol'] == 'tap' and rng.random() < 0.4:
+            t['desc'] = rng.choice(['hash', 'sharp', 'path'])
+        if rng.random() < 0.05:
+            t['err' if t['protocol'] == 'tap' or rng.random() < 0.4 else 'out'] = rng.choice(_SIZES)
+            t['outnl'] = rng.random() < 0.5
+    if profile in ('classify', 'allgood') and len(plain) >= 6:
+        pick = rng.sample(plain, 6)
+        ex = [t for t in pick if t['protocol'] == 'exitcode']
+        for t, (key, n, nl) in zip(ex, [('out', 200000, True), ('out', rng.choice([70000, 100000]), False),
+                                        ('err', rng.choice([70000, 65537]), rng.random() < 0.5)]):
+            t.update({'out': 0, 'err': 0})
+            t[key] = n
+            t['outnl'] = nl
+        taps = [t for t in plain if t['protocol'] == 'tap' and 'ok' in (t['tap'] or '').replace('notok', 'ok')]
+        for t, d in zip(taps, ['hash', 'sharp', 'hash']):
+            t['desc'] = d
+        if taps:
+            taps[0]['err'] = 70000
+            taps[0]['outnl'] = False
     for t in seq:
         # suites
         r = rng.random()
@@ -307,6 +333,14 @@ def probe_args(t: dict) -> T.List[str]:
         a.append(f"leak={t['leak']}")
         if t.get('leakterm', 'default') != 'default':
             a.append('leakterm=' + t['leakterm'])
+    if t.get('out'):
+        a.append(f"out={t['out']}")
+    if t.get('err'):
+        a.append(f"err={t['err']}")
+    if (t.get('out') or t.get('err')) and not t.get('outnl', True):
+        a.append('outnl=0')
+    if t.get('desc', 'plain') != 'plain':
+        a.append('desc=' + t['desc'])
     if t['victim']:
         a.append('cap=60')
     return a
